@@ -642,6 +642,58 @@ def check_multimetric(ctx, drv, seeds):
         break
 
 
+def check_large_counts(ctx, rng, n_cases):
+  """Large batches (batch size x values already seen >= 2^31): the property quantifies over every
+  partition, so int32 products of counts must not wrap. Property oracle only (exact integer
+  arithmetic on the stream), no model call."""
+  plans = [[16384] * 9]
+  for _ in range(n_cases):
+    plans.append([rng.choice([46341, 50000, 65536, 70000]) for _ in range(rng.choice([2, 3]))])
+  for sizes in plans:
+    nseed = rng.randrange(2**31)
+    nrng = np.random.default_rng(nseed)
+    centres = rng.sample([-6, -3, 0, 2, 5, 7, -1, 4, 6], len(sizes))  # batch means differ
+    as_int = rng.random() < 0.5
+    chunks = [(nrng.integers(-4, 5, size=k) + c).astype(np.int64) for k, c in zip(sizes, centres)]
+    allv = np.concatenate(chunks)
+    n = int(allv.size)
+    s1 = int(allv.sum())
+    s2 = int((allv * allv).sum())
+    mean = Fraction(s1, n)
+    var = Fraction(s2, n) - mean * mean
+    wstd = math.sqrt(var)
+    wsem = wstd / math.sqrt(n)
+    case = {'kind': 'large-counts', 'sizes': sizes, 'centres': centres, 'nseed': nseed, 'int32': as_int}
+    ctx.case(case, nontrivial=True)
+    ctx.count('large_count_batches', len(sizes))
+    dt = np.int32 if as_int else np.float32
+    for label, parts in (('as given', chunks), ('one batch', [allv])):
+      w = nnx.metrics.Welford()
+      a = nnx.metrics.Average()
+      r = ('ok', None)
+      for ch in parts:
+        arr = jnp.asarray(ch.astype(dt))
+        r = call(w.update, values=arr)
+        ra = call(a.update, values=arr)
+        if r[0] != 'ok' or ra[0] != 'ok':
+          break
+      if r[0] != 'ok' or ra[0] != 'ok':
+        ctx.violation('large-count-update-raises', f'update raised {r} {ra} on batch sizes {sizes}', case)
+        continue
+      st = w.compute()
+      gm, gs, ge = float(np.asarray(st.mean)), float(np.asarray(st.standard_deviation)), float(np.asarray(st.standard_error_of_mean))
+      if not (close(gm, mean) and close(gs, wstd) and close(ge, wsem)):
+        ctx.violation(
+          'welford-large-counts-wrong',
+          f'Welford.compute() = (mean {gm}, std {gs}, sem {ge}) after update calls of sizes {[int(c.size) for c in parts]} ({label}); '
+          f'the {n} values seen have mean {float(mean)}, std {wstd}, sem {wsem}',
+          dict(case, partition=label, got=[gm, gs, ge], want=[float(mean), wstd, wsem]),
+        )
+      ga = np.asarray(a.compute())
+      if abs(s1) < 2**24 and not same_bits(ga, f32_of(mean)):
+        ctx.violation('average-large-counts-wrong', f'Average.compute() = {ga!r} after sizes {[int(c.size) for c in parts]}; mean of the stream is {float(mean)}', dict(case, partition=label))
+
+
 def compositions(n):
   """all ordered partitions of n into positive parts"""
   if n == 0:
@@ -696,6 +748,7 @@ def run_metrics(ctx, drv, thorough):
     acases.append(c)
   check_accuracy(ctx, drv, acases)
   check_accuracy_errors(ctx, drv)
+  check_large_counts(ctx, rng, 3 if not thorough else 12)
   check_multimetric(ctx, drv, [rng.randrange(2**62) for _ in range(60 if not thorough else 600)])
   ctx.sample({'kind': 'average', 'stream': [str(v) for v in cases[0]['stream']], 'partitions': [[b[1] for b in bl] for bl in cases[0]['batches']]})
   ctx.sample({'kind': 'welford', 'stream': [str(v) for v in wcases[0]['stream']], 'sizes': [[(1 if 's' in b[1] else len(b[1]['a'])) for b in bl] for bl in wcases[0]['batches']]})
@@ -1693,6 +1746,10 @@ def _run_case(ctx, drv, obj):
     check_accuracy(ctx, drv, [c])
   elif kind == 'metric-error':
     check_accuracy_errors(ctx, drv)
+  elif kind == 'large-counts':
+    import random as _random
+
+    check_large_counts(ctx, _random.Random(case.get('nseed', 0)), 2)
   elif kind == 'multimetric':
     check_multimetric(ctx, drv, [case['cseed']])
   elif kind == 'linen-trainstate':
